@@ -646,6 +646,36 @@ func (env *SpecEnv) call(x *SExpr) (sval, error) {
 			return sval{}, err
 		}
 		return sval{app(SInt, "rune_count", s.t), types.Typ[types.Int]}, nil
+	case "fs_exists":
+		// ghost file system: the path exists (os.Lstat succeeds)
+		a, err := env.eval(args[0])
+		if err != nil {
+			return sval{}, err
+		}
+		e.U.declareFun("fs_exists", []Sort{SStr}, SBool)
+		return sval{app(SBool, "fs_exists", a.t), types.Typ[types.Bool]}, nil
+	case "rxsrc":
+		a, err := env.eval(args[0])
+		if err != nil {
+			return sval{}, err
+		}
+		e.U.declareFun("rx.src", []Sort{SInt}, SStr)
+		return sval{app(SStr, "rx.src", a.t), types.Typ[types.String]}, nil
+	case "hasprefix":
+		// hasprefix(s, "literal")
+		a, err := env.eval(args[0])
+		if err != nil {
+			return sval{}, err
+		}
+		if args[1].Op != "str" {
+			return sval{}, fmt.Errorf("hasprefix: second argument must be a string literal")
+		}
+		lit := args[1].Name
+		conj := []Term{le(intLit(int64(len(lit))), sLen(a.t))}
+		for k := 0; k < len(lit); k++ {
+			conj = append(conj, eq(sByte(a.t, intLit(int64(k))), intLit(int64(lit[k]))))
+		}
+		return sval{and(conj...), types.Typ[types.Bool]}, nil
 	case "boundary":
 		// p is the byte offset of the start of a character of s (as range visits them)
 		a, err := env.eval(args[0])
